@@ -17,6 +17,13 @@ INTERP = I.INTERP
 PI = "pdfminer.pdfinterp."
 
 
+def _general(fn: ast.AST, se: SymEval) -> ast.AST:
+    """The helper without its special-case shortcuts (C20-R1 decides whether they agree with the general formula)."""
+    from .c20 import _special_cases
+
+    return _special_cases(fn, se)[0]
+
+
 def _se(model: Model) -> SymEval:
     se = SymEval(opaque_ok=True)
     mm = model.func("pdfminer.utils.mult_matrix")
@@ -26,8 +33,8 @@ def _se(model: Model) -> SymEval:
         "safe_float": lambda x: x,
         "safe_int": lambda x: x,
         "safe_matrix": lambda *a: tuple(a),
-        "mult_matrix": inner.function(mm.node),  # type: ignore[arg-type]
-        "translate_matrix": inner.function(tm.node),  # type: ignore[arg-type]
+        "mult_matrix": inner.function(_general(mm.node, inner)),  # type: ignore[arg-type]
+        "translate_matrix": inner.function(_general(tm.node, inner)),  # type: ignore[arg-type]
     }
     return se
 
@@ -198,19 +205,25 @@ def run(model: Model, rep: Report) -> None:
     want_ws = {"gstack": "[]", "ctm": "ctm", "textstate": "PDFTextState()", "graphicstate": "PDFGraphicState()", "curpath": "[]", "argstack": "[]"}
     bad_ws = {k: ws.get(k) for k, v in want_ws.items() if ws.get(k) != v}
     r11.check(not bad_ws and "self.device.set_ctm(self.ctm)" in "".join(unparse(ist.node).split()), site(ist), ist.qualname, "init_state: gstack = [], ctm = ctm (also handed to the device), fresh PDFTextState / PDFGraphicState, curpath = [], argstack = []", why=f"differs: {bad_ws}: state of the previous page or of the invoking content would leak into this one")
+    ir5 = model.func(PI + "PDFPageInterpreter.init_resources")
+    v5 = [unparse(n.value) for n in walk_no_nested(ir5.node) if isinstance(n, (ast.Assign, ast.AnnAssign)) and unparse(n.targets[0] if isinstance(n, ast.Assign) else n.target) == "self.csmap"]
+    r12 = rep.rule("C05-R12", "ALIAS", "a form XObject's colour-space names stay in the form: every interpreter works on its own copy of the predefined colour-space table", 1)
+    r12.check(len(v5) == 1 and v5[0] in ("PREDEFINED_COLORSPACE.copy()", "dict(PREDEFINED_COLORSPACE)", "{**PREDEFINED_COLORSPACE}"), site(ir5), ir5.qualname, "self.csmap = PREDEFINED_COLORSPACE.copy()", why=f"self.csmap = {v5}")
     from .interp import optional_number_truth_rule
 
     optional_number_truth_rule(model, rep, "C05-R10", [f for q, f in sorted(model.funcs.items()) if q.startswith("pdfminer.pdfinterp.PDFPageInterpreter.do_")], 8)
     from .c07 import char_width_rule
 
     char_width_rule(model, rep, "C05-R9")
-    r8 = rep.rule("C05-R8", "WRITESET", "content spread over several streams: refilling carries the scanner state and inserts nothing", 2)
+    r8 = rep.rule("C05-R8", "WRITESET", "content spread over several streams: refilling carries the scanner state and inserts nothing", 3)
     fb = model.func(PI + "PDFContentParser.fillbuf")
     w = set(self_fields_written(fb))
     calls = {dotted(c.func) or "" for c in walk_no_nested(fb.node) if isinstance(c, ast.Call)}
     bad_w = w - {"bufpos", "buf", "charpos", "fp"}
     bad_c = {c for c in calls if c.endswith(".seek") or c.endswith("reset") or c.startswith("self._parse")}
     r8.check(not bad_w and not bad_c, site(fb), fb.qualname, "PDFContentParser.fillbuf writes only {fp, bufpos, buf, charpos} and never reseeks/resets the tokenizer", why=f"writes {sorted(bad_w)} calls {sorted(bad_c)}")
+    sfb = "".join(unparse(fb.node).split())
+    r8.check("self.fillfp()self.bufpos=self.fp.tell()self.buf=self.fp.read(self.BUFSIZ)" in sfb, site(fb), fb.qualname, "each refill: make sure a stream is open, take the position from that stream, read the next block", why="refill sequence changed: token positions in the second and later streams of a Contents array would no longer be positions in their own stream (the inline-image reader seeks with them)")
     ff = model.func(PI + "PDFContentParser.fillfp")
     w2 = set(self_fields_written(ff))
     calls2 = {dotted(c.func) or "" for c in walk_no_nested(ff.node) if isinstance(c, ast.Call)}
